@@ -26,14 +26,9 @@ def register(reg):
                       'self.cursor == old_self.cursor', 'self.ast == old_self.ast', ('property', 'self.cutseen == old_self.cutseen'),
                       'self.alerts == old_self.alerts'])
     contract(reg, f'{F}:ParseState.merge', P, {'self': 'Frame', 'prev': 'Frame'}, ret='any', modifies=['self'],
-             requires=['prev.cursor.len == self.cursor.len'],
-             ensures=[('property', 'self.ast == prev.ast'),
-                      ('property', 'self.cst == spec_cstmerge(old_self.cst, prev.cst)'),
-                      'self.last_node == prev.cst',
-                      'self.alerts == old_self.alerts + prev.alerts',
-                      ('property', 'self.cursor.pos == prev.cursor.pos'),
-                      ('property', 'self.cutseen == old_self.cutseen'),
-                      *SAME_CURSOR_BUT_POS])
+             requires=['prev.cursor.len == self.cursor.len', '0 <= prev.cursor.pos', 'prev.cursor.pos <= prev.cursor.len'],
+             ensures=[('property', 'self == spec_merged(old_self, prev)'),
+                      ('property', 'self.cutseen == old_self.cutseen')])
     contract(reg, f'{F}:ParseState.fold', P, {'self': 'Frame'}, ret='Val',
              ensures=[('property', "result == (spec_cstfinal(self.cst) if not self.ast else "
                                    "(dict_get(self.ast, '__vallue__') if dict_has(self.ast, '__vallue__') else self.ast))")])
@@ -50,20 +45,11 @@ def register(reg):
     contract(reg, f'{F}:ParseStateStack.undo', P, {'self': 'States'}, ret='Frame', modifies=['self.state_stack'],
              ensures=[('property', 'result == old_self.state_stack[-1]'),
                       ('property', 'self.state_stack == old_self.state_stack[:-1]')])
-    contract(reg, f'{F}:ParseStateStack.pop', P, {'self': 'States'}, ret='Frame', modifies=['self.state_stack'],
+    contract(reg, f'{F}:ParseStateStack.pop', P, {'self': 'States{state_stack=stack[Frame,2]}'}, ret='Frame', modifies=['self.state_stack'],
              requires=['len(self.state_stack) >= 2', 'self.state_stack[-1].cursor.len == self.state_stack[-2].cursor.len',
                        '0 <= self.state_stack[-1].cursor.pos', 'self.state_stack[-1].cursor.pos <= self.state_stack[-1].cursor.len'],
              ensures=[('property', 'result == old_self.state_stack[-1]'),
-                      'len(self.state_stack) == len(old_self.state_stack) - 1',
-                      ('property', 'self.state_stack[:-1] == old_self.state_stack[:-2]'),
-                      ('property', 'self.state_stack[-1].cursor.pos == old_self.state_stack[-1].cursor.pos'),
-                      'self.state_stack[-1].cursor.len == old_self.state_stack[-2].cursor.len',
-                      'self.state_stack[-1].cursor.textstr == old_self.state_stack[-2].cursor.textstr',
-                      'self.state_stack[-1].cursor.input == old_self.state_stack[-2].cursor.input',
-                      'self.state_stack[-1].ast == old_self.state_stack[-2].ast', 'self.state_stack[-1].cst == old_self.state_stack[-2].cst',
-                      ('property', 'self.state_stack[-1].cutseen == old_self.state_stack[-2].cutseen'),
-                      'self.state_stack[-1].last_node == old_self.state_stack[-2].last_node',
-                      'self.state_stack[-1].alerts == old_self.state_stack[-2].alerts'])
+                      ('property', 'self.state_stack == old_self.state_stack[:-2] + [spec_at(old_self.state_stack[-2], old_self.state_stack[-1].cursor.pos)]')])
     fresh = ['len(self.state_stack) == len(old_self.state_stack) + 1',
              ('property', 'self.state_stack[:-1] == old_self.state_stack'),
              ('property', 'self.state_stack[-1].cursor == old_self.state_stack[-1].cursor'),
@@ -71,17 +57,10 @@ def register(reg):
              ('property', 'not self.state_stack[-1].cutseen'),
              'self.state_stack[-1].last_node is None', 'len(self.state_stack[-1].alerts) == 0']
     contract(reg, f'{F}:ParseStateStack.push', P, {'self': 'States'}, ret='any', modifies=['self.state_stack'],
-             ensures=fresh + [('property', 'self.state_stack[-1].ast == old_self.state_stack[-1].ast')])
+             ensures=[('property', 'self.state_stack == old_self.state_stack + [spec_fresh(old_self.state_stack[-1])]')])
     contract(reg, f'{F}:ParseStateStack.new', P, {'self': 'States'}, ret='any', modifies=['self.state_stack'],
-             ensures=fresh + [('property', 'not self.state_stack[-1].ast')])
-    contract(reg, f'{F}:ParseStateStack.merge', P, {'self': 'States'}, ret='any', modifies=['self.state_stack'],
+             ensures=[('property', 'self.state_stack == old_self.state_stack + [spec_with_ast(spec_fresh(old_self.state_stack[-1]), AST())]')])
+    contract(reg, f'{F}:ParseStateStack.merge', P, {'self': 'States{state_stack=stack[Frame,2]}'}, ret='any', modifies=['self.state_stack'],
              requires=['len(self.state_stack) >= 2', 'self.state_stack[-1].cursor.len == self.state_stack[-2].cursor.len',
                        '0 <= self.state_stack[-1].cursor.pos', 'self.state_stack[-1].cursor.pos <= self.state_stack[-1].cursor.len'],
-             ensures=['len(self.state_stack) == len(old_self.state_stack) - 1',
-                      ('property', 'self.state_stack[:-1] == old_self.state_stack[:-2]'),
-                      ('property', 'self.state_stack[-1].ast == old_self.state_stack[-1].ast'),
-                      ('property', 'self.state_stack[-1].cst == spec_cstmerge(old_self.state_stack[-2].cst, old_self.state_stack[-1].cst)'),
-                      ('property', 'self.state_stack[-1].cursor.pos == old_self.state_stack[-1].cursor.pos'),
-                      ('property', 'self.state_stack[-1].cutseen == old_self.state_stack[-2].cutseen'),
-                      'self.state_stack[-1].last_node == old_self.state_stack[-1].cst',
-                      'self.state_stack[-1].alerts == old_self.state_stack[-2].alerts + old_self.state_stack[-1].alerts'])
+             ensures=[('property', 'self.state_stack == old_self.state_stack[:-2] + [spec_merged(old_self.state_stack[-2], old_self.state_stack[-1])]')])
